@@ -87,10 +87,11 @@ impl MemResizable for HeapMem {
                     } else {
                         // mul carefully, to prevent overflow.
                         let new_mem_size = self.element_layout.size()
-                            .checked_mul(new_size).unwrap();
-                        let new_mem_layout = Layout::from_size_align_unchecked(
+                            .checked_mul(new_size).expect("Capacity overflow!");
+                        // Checked: the total size must not overflow isize.
+                        let new_mem_layout = Layout::from_size_align(
                             new_mem_size, self.element_layout.align()
-                        );
+                        ).expect("Capacity overflow!");
 
                         if self.size == 0 {
                             // allocate
